@@ -1906,11 +1906,15 @@ class _PyMain(object):
             # first argument.
             function_name = popcmdarg()
             function = UserExpr(function_name, self.namespace, "eval")
-            if args and args[0] == '--':
-                for arg in args[1:]:
+            # Everything after the first '--' is a literal string, wherever
+            # the '--' stands (not only when it is the first argument).
+            literal = False
+            for arg in args:
+                if literal:
                     self.apply(function, ['--', arg])
-            else:
-                for arg in args:
+                elif arg == '--':
+                    literal = True
+                else:
                     self.apply(function, [arg])
         elif action in ["xargs"]:
             # TODO: read lines from stdin and map.  default arg_mode=string
